@@ -1681,29 +1681,26 @@ impl Fsm {
             let mut toFinalize: Vec<ExecutableContentId> = Vec::new();
             let mut toForward: Vec<InvokeId> = Vec::new();
             {
-                match externalEvent.invoke_id {
-                    None => {}
-                    Some(ref invokeId) => {
-                        match get_global!(datamodel).child_sessions.get(invokeId) {
-                            None => {}
-                            Some(session) => {
-                                // Get state of invokeid
-                                if let Some(state_id) = session.state_id {
-                                    let invoke_doc_id = session.invoke_doc_id;
-                                    let state = self.get_state_by_id(state_id);
-                                    for inv in state.invoke.iterator() {
-                                        if inv.doc_id == invoke_doc_id {
-                                            toFinalize.push(inv.finalize);
-                                        }
-                                        if inv.autoforward {
-                                            toForward.push(invokeId.clone());
-                                        }
-                                    }
+                // W3C: for each invoke of each active state: finalize if the event comes from it,
+                // forward the event if the invoke has autoforward set.
+                let global = get_global!(datamodel);
+                for (invokeId, session) in global.child_sessions.iter() {
+                    // Get state of invokeid
+                    if let Some(state_id) = session.state_id {
+                        let invoke_doc_id = session.invoke_doc_id;
+                        let state = self.get_state_by_id(state_id);
+                        for inv in state.invoke.iterator() {
+                            if inv.doc_id == invoke_doc_id {
+                                if externalEvent.invoke_id.as_ref() == Some(invokeId) {
+                                    toFinalize.push(inv.finalize);
+                                }
+                                if inv.autoforward {
+                                    toForward.push(invokeId.clone());
                                 }
                             }
                         }
                     }
-                };
+                }
             }
             datamodel.set_event(&externalEvent);
             for finalizeContentId in toFinalize {
